@@ -8,7 +8,9 @@ variables and of X and Y (so dependence on a stray free variable is a mismatch).
 
 from __future__ import annotations
 
-from ..graphs import G, disjoint_pairs, enum_L, enum_O
+from functools import lru_cache
+
+from ..graphs import G, disjoint_pairs, districts, enum_L, enum_O, identifiable_tp, irreducible_queries
 from ..runner import Res
 from ..scm import SCM, World
 from ..semantics import Malformed, MultiWorld, Undefined, compile_expr, envs
@@ -17,10 +19,19 @@ from ..y0util import V, to_y0
 TITLE = "ID estimands equal the true interventional distribution"
 
 
+@lru_cache(maxsize=None)
 def _universe(tier):
+    """(mode, graph): 'full' = every (X, Y); 'irr' = only irreducible identifiable queries (five-node graphs)."""
     if tier == "quick":
-        return [g for n in (1, 2, 3) for g in enum_L(n)] + list(enum_O(4))
-    return [g for n in (1, 2, 3, 4) for g in enum_L(n)] + list(enum_O(5, max_edges=5))
+        full = [g for n in (1, 2, 3) for g in enum_L(n)] + list(enum_O(4))
+        return [("full", g) for g in full] + [("l7", g) for g in enum_O(5, max_edges=8)]
+    full = [g for n in (1, 2, 3, 4) for g in enum_L(n)] + list(enum_O(5, max_edges=5))
+    o5 = list(enum_O(5, max_edges=9))
+    return (
+        [("full", g) for g in full]
+        + [("irr", g) for g in o5 if 5 < len(g.di) + len(g.bi) <= 8]
+        + [("l7", g) for g in o5 if len(g.di) + len(g.bi) == 9]
+    )
 
 
 def profiles(g: G, tier, seed):
@@ -38,9 +49,12 @@ def profiles(g: G, tier, seed):
 
 
 def shards(tier):
-    n = len(_universe(tier))
+    uni = _universe(tier)
+    nfull = sum(1 for m, _ in uni if m == "full")
     size = 64 if tier == "quick" else 128
-    return [(i, min(i + size, n)) for i in range(0, n, size)]
+    out = [(i, min(i + size, nfull)) for i in range(0, nfull, size)]
+    out += [(i, min(i + 2048, len(uni))) for i in range(nfull, len(uni), 2048)]
+    return out
 
 
 def describe(tier):
@@ -50,7 +64,16 @@ def describe(tier):
             if tier == "quick"
             else "graphs: L(1..4) all labelled ADMGs (34 959) + O(5, <=5 edges)"
         )
-        + "; every ordered pair of disjoint non-empty X, Y; witness profiles: all-binary"
+        + "; every ordered pair of disjoint non-empty X, Y; plus five-node name-ordered ADMGs with "
+        + ("<=8 edges" if tier == "quick" else "6..9 edges")
+        + " restricted to irreducible identifiable queries (first ID step is none of lines 2, 3, 4: all nodes ancestors of "
+        "Y, no node addable to X, G minus X one district; every other query reduces to these by formulas exercised at n<=4)"
+        + (
+            "; with 9 edges only those whose first step is line 7"
+            if tier == "thorough"
+            else " whose first step is line 7 (G minus X is not a district of G), binary witness only"
+        )
+        + "; witness profiles: all-binary"
         + (" + first node ternary + last node ternary (second salt)" if tier == "thorough" else " + one ternary node")
         + "; every value assignment of estimand free variables, X and Y",
         "rule": "state = (graph, X, Y, witness profile); transition = one identify_outcomes call whose estimand is "
@@ -117,10 +140,22 @@ def check_query(res: Res, g: G, yg, x, y, models, case):
     res.outcomes["estimand_correct"] += 1
 
 
-def explore_graph(res: Res, g: G, tier, seed, only=None):
+def explore_graph(res: Res, g: G, tier, seed, only=None, mode="full"):
+    if mode in ("irr", "l7"):
+        queries = [(x, y) for x, y in irreducible_queries(g) if identifiable_tp(g, x, y)]
+        if mode == "l7":
+            ds = districts(g)
+            queries = [(x, y) for x, y in queries if frozenset(v for v in g.nodes if v not in x) not in ds]
+        if not queries:
+            return
+    else:
+        queries = list(disjoint_pairs(g.nodes))
     yg = to_y0(g)
-    models = [(label, SCM(g, card=card, salt=salt)) for label, card, salt in profiles(g, tier, seed)]
-    for x, y in disjoint_pairs(g.nodes):
+    profs = profiles(g, tier, seed)
+    if mode != "full" and tier == "quick":
+        profs = profs[:1]
+    models = [(label, SCM(g, card=card, salt=salt)) for label, card, salt in profs]
+    for x, y in queries:
         if only and (list(x), list(y)) != only:
             continue
         case = {"graph": g.to_json(), "X": list(x), "Y": list(y)}
@@ -132,8 +167,8 @@ def explore_graph(res: Res, g: G, tier, seed, only=None):
 def work(shard, tier, seed):
     lo, hi = shard
     res = Res()
-    for g in _universe(tier)[lo:hi]:
-        explore_graph(res, g, tier, seed)
+    for mode, g in _universe(tier)[lo:hi]:
+        explore_graph(res, g, tier, seed, mode=mode)
     return res
 
 
